@@ -53,6 +53,7 @@ func asReader(r io.Reader) *bytes.Reader { br, _ := r.(*bytes.Reader); return br
 //@   requires readerOK(r)
 //@   ensures[reader] readerOK(r) && inputLen(r) == old(inputLen(r))
 //@   ensures[step] n >= 0 && n <= len(b) && consumed(r) == old(consumed(r)) + n && (err != nil ==> n == 0)
+//@   ensures[eof-only-at-the-end] (err == nil) == (old(consumed(r)) < old(inputLen(r)))
 //@   modifies obj(r), elems(b)
 
 //@ func (r *bytes.Reader) ReadAt(b []byte, off int64) (n int, err error)
@@ -102,6 +103,7 @@ func asReader(r io.Reader) *bytes.Reader { br, _ := r.(*bytes.Reader); return br
 //@   ensures[reader-ok] readerOK(r)
 //@   ensures[same-input] inputLen(r) == old(inputLen(r))
 //@   ensures[forward] consumed(r) >= old(consumed(r))
+//@   ensures[payload-within-the-input-is-accepted] old(remaining(r)) >= limit ==> err == nil && result != nil && len(result.Data) == int(limit)
 //@   sweep
 //@   alloc-bound 256*remaining(r) + 4096
 
@@ -421,3 +423,10 @@ func sizedMax(maxPages *uint32, limit uint32) uint32 {
 //@   ensures[limits-do-not-depend-on-the-capacity-setting] min == minPages && max == sizedMax(maxPages, memoryLimitPages)
 //@   ensures[capacity-is-min-or-max] capacity == minPages || (memoryCapacityFromMax && capacity == max)
 //@   ensures[capacity-from-max-preallocates] memoryCapacityFromMax && (maxPages == nil || *maxPages <= wasm.MemoryLimitPages) ==> capacity == max
+
+// Keeping custom sections / DWARF data is a tooling choice: whenever the declared payload lies within the
+// input - an empty payload at the very end included - decoding it succeeds, as skipping it does.
+//@ case payload-accepted decodeCustomSection(r *bytes.Reader, name string, limit uint64) (result *wasm.CustomSection, err error)
+//@   requires readerOK(r) && remaining(r) >= limit
+//@   ensures[kept-section-decodes-whenever-skipping-would] err == nil && result != nil && len(result.Data) == int(limit)
+//@   nosafety
